@@ -82,6 +82,9 @@ CHECKS = {
  "C27": dict(cat="model_checking", tech="TLA+ trace validation (TLC, Trace_Seq BulkOK): the image of the target object after update_text / update_object / batch_create_object / splice with nested values / init_root_from_hydrate equals the target value drawn from a value grammar; frame condition; Trace_Interp on the same traces",
    text="Reconciliation and bulk construction calls on prior states with conflicts, tombstones and nested objects over 2-3 replicas.", ref="§5a",
    note="assumes as the other trace checks; update_spans and init_from_hydrate are NOT exercised (the span grammar and its normalisation were not modelled); equality with call-by-call construction is observed as equality of the resulting images, not of op ids"),
+ "C31": dict(cat="model_checking", tech="TLA+ trace validation (TLC, Trace_Interp Anon): isomorphism of the two change graphs through recursive change signatures (bag equality) and actor partitions, shape equality at the current heads and at every change, reload",
+   text="Histories with text, marks, counters, conflicts and nested objects on 2-3 replicas, every replica anonymized.", ref="§5a",
+   note="assumes: the canonical shape string (object types, key counts, sequence order/lengths, text widths, conflict multiplicities) is computed by the harness projection (world.rs shape_at); shapes are compared at the current heads and at every single-change head set, not at every antichain; mark values are not part of the shape"),
 }
 
 NA_REASON = "check not built yet in this session (framework under construction; see DESIGN.md §10 build order)"
